@@ -383,7 +383,7 @@ var decodedNonNilExceptions = map[string]string{
 // ruleDecodedNonNil: a successfully decoded object can be serialised without a nil dereference.
 func (c *Ctx) ruleDecodedNonNil(rule string, shorts []string, min int) {
 	r := c.R
-	r.Rule(rule, "for every decodable struct type with a decoder method and a Serialize method: each pointer- or interface-typed field that Serialize dereferences (calls a method on, or reads through) without ever comparing it with nil is assigned on every path of the decoder that returns success; an accepted object with such a field nil panics the first time the route is serialised, printed or converted", min)
+	r.Rule(rule, "for every decodable struct type with a decoder method and a Serialize method: each pointer- or interface-typed field that Serialize dereferences (calls a method on, or reads through) without ever comparing it with nil is assigned on every path of the decoder that returns success — for path attributes, which BGPUpdate.DecodeFromBytes keeps in the message unless the error is of the attribute-discard class, on every returning path; an accepted or kept object with such a field nil panics the first time the route is serialised, printed or converted", min)
 	for _, short := range shorts {
 		alloc, nreach := c.allocatedOnDecodeSide(short)
 		if nreach == 0 {
@@ -480,7 +480,14 @@ func (c *Ctx) ruleDecodedNonNil(rule string, shorts []string, min int) {
 				bad := ""
 				for _, b := range dec.Blocks {
 					ret, ok := b.Instrs[len(b.Instrs)-1].(*ssa.Return)
-					if !ok || len(ret.Results) == 0 || !isNilConst(ret.Results[len(ret.Results)-1]) {
+					if !ok || len(ret.Results) == 0 {
+						continue
+					}
+					// a path attribute stays in the message when its decoder fails with a treat-as-withdraw class
+					// error (BGPUpdate.DecodeFromBytes drops only attribute-discard ones), and the daemon goes on to
+					// print and log that message: for those types every return counts, not only the successful ones
+					keptOnError := strings.HasPrefix(n.Obj().Name(), "PathAttribute") && strings.HasSuffix(short, "pkg/packet/bgp")
+					if !keptOnError && !isNilConst(ret.Results[len(ret.Results)-1]) {
 						continue
 					}
 					seen := map[*ssa.BasicBlock]bool{}
@@ -507,7 +514,7 @@ func (c *Ctx) ruleDecodedNonNil(rule string, shorts []string, min int) {
 				case decodedNonNilExceptions[key] != "":
 					r.Except(rule, fk, cons, c.P.Pos(f.Pos()), decodedNonNilExceptions[key])
 				default:
-					r.Bad(rule, fk, cons, bad, "the decoder can return success at "+bad+" without having assigned "+f.Name()+", which Serialize dereferences without a nil test: the object is accepted and then panics when the route is serialised, printed or converted")
+					r.Bad(rule, fk, cons, bad, "the decoder can return at "+bad+" (with success, or for a path attribute with an error that leaves it in the message) without having assigned "+f.Name()+", which Serialize dereferences without a nil test: the object is accepted and then panics when the route is serialised, printed or converted")
 				}
 			}
 		}
